@@ -633,6 +633,20 @@ func optParseVal(ts []string, depth int) (optVal, []string, bool) {
 			}
 			v.Elems = append(v.Elems, e)
 		}
+	case len(t) > 3 && (t[0] == 'u' || t[0] == 'i') && (t[1] == 'x' || t[1] == 'o') && t[2] == ':':
+		// an integer spelled in hex (0x…) or octal (0…); i… = written with a minus sign
+		base := 16
+		if t[1] == 'o' {
+			base = 8
+		}
+		n, ok := new(big.Int).SetString(t[3:], base)
+		if !ok || len(t) > 43 || strings.ToLower(t[3:]) != t[3:] || n.Sign() < 0 || strings.ContainsAny(t[3:], "+-_") {
+			return optVal{}, nil, false
+		}
+		if t[0] == 'u' && !n.IsUint64() || t[0] == 'i' && n.Cmp(new(big.Int).Lsh(big.NewInt(1), 63)) > 0 {
+			return optVal{}, nil, false
+		}
+		return optVal{T: t[:2], N: t[3:]}, rest, true
 	case strings.HasPrefix(t, "u:") && optIsDec(t[2:]):
 		n, _ := new(big.Int).SetString(t[2:], 10)
 		if !n.IsUint64() {
@@ -806,6 +820,14 @@ func (v *optVal) render(sb *strings.Builder) {
 		sb.WriteString(v.N)
 	case "i":
 		sb.WriteString("-" + v.N)
+	case "ux":
+		sb.WriteString("0x" + v.N)
+	case "ix":
+		sb.WriteString("-0x" + v.N)
+	case "uo":
+		sb.WriteString("0" + v.N)
+	case "io":
+		sb.WriteString("-0" + v.N)
 	case "f":
 		sb.WriteString(optFloatText(v.Bits))
 	case "nf":
@@ -1759,6 +1781,7 @@ func optGenSchema(r *Rand) (string, string) {
 		s.WriteString(fmt.Sprintf("  repeated t.T0 %s_rt0 = %d;\n", p, n+31))
 		s.WriteString(fmt.Sprintf("  optional MS %s_ms = %d;\n", p, n+32))
 		s.WriteString(fmt.Sprintf("  optional TG %s_tg = %d;\n", p, n+34))
+		s.WriteString(fmt.Sprintf("  repeated float %s_rflt = %d;\n  repeated double %s_rdbl = %d;\n", p, n+35, p, n+36))
 		s.WriteString(fmt.Sprintf("  repeated google.protobuf.Any %s_rany = %d;\n", p, n+33))
 		s.WriteString("}\n")
 	}
@@ -2650,6 +2673,69 @@ func optElemFamily() []string {
 	return ops
 }
 
+// optIntFloatFamily: integer literals assigned to float / double options. float32(i) is ONE rounding
+// of the integer; going through float64 first rounds twice and differs when the float64 rounding lands
+// on a float32 midpoint (x = 2^k + 2^(k-24) + 1, k >= 54). Plain option statements, repeated options,
+// sub-field paths, field defaults, and (for the reference: labelled apart) inside message literals;
+// decimal, hex and octal spellings, negated values down to -2^63.
+func optIntFloatFamily() []string {
+	pow := func(k uint) *big.Int { return new(big.Int).Lsh(big.NewInt(1), k) }
+	add := func(a *big.Int, bs ...*big.Int) *big.Int {
+		x := new(big.Int).Set(a)
+		for _, b := range bs {
+			x.Add(x, b)
+		}
+		return x
+	}
+	one, mone := big.NewInt(1), big.NewInt(-1)
+	var f32, f64 []*big.Int
+	for d := int64(-3); d <= 3; d++ {
+		f32 = append(f32, add(pow(24), big.NewInt(d)), add(pow(25), big.NewInt(2*d)))
+		f64 = append(f64, add(pow(53), big.NewInt(d)), add(pow(54), big.NewInt(2*d)))
+	}
+	for k := uint(54); k <= 63; k++ {
+		h := pow(k - 24) // half a float32 ulp at 2^k
+		f32 = append(f32, add(pow(k), h, one), add(pow(k), h), add(pow(k), h, mone), add(pow(k), h, h, h, one), add(pow(k), h, h, h), add(pow(k), h, h, h, mone))
+	}
+	f32 = append(f32, add(pow(64), mone), add(pow(64), new(big.Int).Neg(pow(39))), add(pow(64), new(big.Int).Neg(pow(39)), mone),
+		add(pow(64), new(big.Int).Neg(pow(40)), pow(16)), add(pow(63), pow(39), one), add(pow(63), pow(39)), pow(63), add(pow(63), mone))
+	f64 = append(f64, add(pow(63), mone), pow(63), add(pow(63), one), add(pow(63), pow(10)), add(pow(63), pow(10), one), add(pow(63), pow(10), mone),
+		add(pow(64), mone), add(pow(64), new(big.Int).Neg(pow(10))), add(pow(64), new(big.Int).Neg(pow(10)), mone), add(pow(64), new(big.Int).Neg(pow(10)), one),
+		add(pow(62), pow(9), one), add(pow(60), pow(36), one))
+	lits := func(x *big.Int, spell int) []string {
+		var out []string
+		pre := [][2]string{{"u:", "i:"}, {"ux:", "ix:"}, {"uo:", "io:"}}[spell]
+		base := []int{10, 16, 8}[spell]
+		out = append(out, pre[0]+x.Text(base))
+		if x.Cmp(pow(63)) <= 0 {
+			out = append(out, pre[1]+x.Text(base))
+		}
+		return out
+	}
+	var ops []string
+	emit := func(xs []*big.Int, scal, rep, path, lit, list, defKind string) {
+		for i, x := range xs {
+			for spell := 0; spell < 3; spell++ {
+				if spell > 0 && i%3 != spell-1 {
+					continue
+				}
+				for _, l := range lits(x, spell) {
+					ops = append(ops,
+						"opt p2 file 1 1 x:s.fi_"+scal+" "+l,
+						"opt p2 message 2 1 x:s.me_"+rep+" "+l+" 1 x:s.me_"+rep+" u:1",
+						"opt p2 enum 1 2 x:s.en_m0 n:"+path+" "+l,
+						"opt p2 field:"+defKind+":o 1 1 n:default "+l,
+						"opt p2 file 1 1 x:s.fi_m0 { n:"+lit+" : "+l+" }",
+						"opt p2 service 1 1 x:s.sv_m2 { n:"+list+" : [ u:1 "+l+" ] }")
+				}
+			}
+		}
+	}
+	emit(f32, "flt", "rflt", "f11", "f11", "f2", "flt")
+	emit(f64, "dbl", "rdbl", "f12", "f12", "f2", "dbl")
+	return ops
+}
+
 func (e *optionsEngine) Gen(r *Rand, tier string) [][]string {
 	thorough := tier == "thorough"
 	modes := e.name == "optmodes"
@@ -2669,6 +2755,15 @@ func (e *optionsEngine) Gen(r *Rand, tier string) [][]string {
 	}
 	chunk(optDirected())
 	chunk(optElemFamily())
+	if !modes {
+		chunk(optIntFloatFamily())
+	} else {
+		for i, o := range optIntFloatFamily() {
+			if i%6 == 0 {
+				cases[len(cases)-1] = append(cases[len(cases)-1], o)
+			}
+		}
+	}
 	if !modes {
 		chunk(optPseudoGrid(kst))
 		chunk(optCalib(kst))
